@@ -16,11 +16,12 @@ import FeVerif.Driver.Rtcm
 import FeVerif.Driver.Crc
 import FeVerif.Driver.Loader
 import FeVerif.Driver.Layout
+import FeVerif.Driver.TimeRange
 
 namespace FeVerif
 
 def dispatchers : List (String → List String → Option String) :=
-  [dispatchFrame, dispatchIndexer, dispatchFileIndex, dispatchReader, dispatchExtract, dispatchAngle, dispatchDataVersion, dispatchAlign, dispatchNumpy, dispatchC02, dispatchRtcm, dispatchCrc, dispatchLoader, dispatchLayout]
+  [dispatchFrame, dispatchIndexer, dispatchFileIndex, dispatchReader, dispatchExtract, dispatchAngle, dispatchDataVersion, dispatchAlign, dispatchNumpy, dispatchC02, dispatchRtcm, dispatchCrc, dispatchLoader, dispatchLayout, dispatchTimeRange]
 
 def dispatch (line : String) : String :=
   match line.splitOn " " with
